@@ -194,6 +194,52 @@ theorem concat_fnAfterP : ∀ (cs : List Comment) (acc : List FP) (i : Nat),
       simp only [concat_append, concat_cmtP, concat_ite, concat_nil, concat_cons, text_ws]
       split <;> simp
 
+theorem concat_dropCharsP : ∀ (ps : List FP) (n : Nat), concat (dropCharsP ps n) = (concat ps).drop n
+  | [], n => by simp [dropCharsP]
+  | p :: rest, n => by
+    simp only [dropCharsP]
+    by_cases h0 : n = 0
+    · subst h0; simp
+    · simp only [h0, if_false]
+      by_cases hl : p.text.length ≤ n
+      · simp only [hl, if_true, concat_dropCharsP rest, concat_cons]
+        rw [List.drop_append]
+        have : List.drop n p.text = [] := List.drop_eq_nil_of_le hl
+        rw [this, List.nil_append]
+      · simp only [hl, if_false, concat_cons, text_withText]
+        rw [List.drop_append]
+        have : n - p.text.length = 0 := by omega
+        rw [this, List.drop_zero]
+
+theorem concat_stripIndentPrefixP (ps : List FP) (i : Nat) :
+    concat (stripIndentPrefixP ps i) = stripIndentPrefix (concat ps) i := by
+  unfold stripIndentPrefixP stripIndentPrefix
+  split
+  · exact concat_dropCharsP ps i
+  · rfl
+
+theorem concat_withBodyPartP (f a : Bool) (x y : List FP) (i : Nat) :
+    concat (withBodyPartP f a x y i) = withBodyPart f a (concat x) (concat y) i := by
+  unfold withBodyPartP withBodyPart
+  split
+  · simp [concat_stripIndentPrefixP]
+  · split <;> simp
+
+theorem concat_attrP : ∀ (attrs : List Text), concat (attrP attrs) = attrText attrs
+  | [] => rfl
+  | [a] => by simp [attrP, attrText]
+  | a :: b :: rest => by
+    have ih := concat_attrP (b :: rest)
+    simp only [attrP, attrText, concat_cons, text_tok, ih]
+    simp
+
+theorem concat_binCoreP (l ro ri : List FP) (op : Text) (ogl rgl i : Nat) :
+    concat (binCoreP l ro ri op ogl rgl i) = binCore (concat l) (concat ro) (concat ri) op ogl rgl i := by
+  unfold binCoreP binCore
+  split
+  · split <;> simp [List.append_assoc]
+  · split <;> simp [List.append_assoc]
+
 /-! ### the piece-level renderer concatenates to the string-level renderer -/
 
 mutual
@@ -250,6 +296,48 @@ theorem concat_rebuildAP : (e : Expr) → ∀ (na : Bool) (i : Nat) (b : Bool),
     generalize (Layout.fromGap g).onNewline = on
     generalize (if on = true then (Layout.fromGap g).indent.getD (i + 2) else i) = ai
     simp only [concat_append, concat_cons, text_ws, concat_fnAfterP, ihn, apply_ite concat, iha, List.append_assoc]
+  | .wth env body awc awGap asc before after, na, i, b => by
+    have ihe := concat_rebuildAP env
+    have ihb := concat_rebuildAP body
+    simp only [Expr.rebuildAP, Expr.rebuildA, concat_addTriviaP]
+    congr 1
+    simp only [concat_append, concat_cons, concat_nil, text_tok, text_ws, apply_ite concat, ihe, ihb,
+      concat_withBodyPartP, List.append_assoc, List.nil_append, List.cons_append, List.append_nil]
+  | .asrt cond body aac bsc before after, na, i, b => by
+    have ihc := concat_rebuildAP cond
+    have ihb := concat_rebuildAP body
+    simp only [Expr.rebuildAP, Expr.rebuildA]
+    simp only [concat_append, concat_cons, concat_nil, text_tok, text_ws, concat_addTriviaP, apply_ite concat, ihc, ihb,
+      List.append_assoc, List.nil_append, List.cons_append, List.append_nil]
+  | .sel expr attrs g ab before after, na, i, b => by
+    have ihe := concat_rebuildAP expr
+    simp only [Expr.rebuildAP, Expr.rebuildA, concat_addTriviaP]
+    congr 1
+    simp only [concat_append, concat_cons, concat_nil, text_tok, text_ws, ihe, concat_attrP, List.append_assoc,
+      List.nil_append, List.cons_append, List.append_nil]
+  | .selOr expr attrs g ab d dg db before after, na, i, b => by
+    have ihe := concat_rebuildAP expr
+    have ihd := concat_rebuildAP d
+    simp only [Expr.rebuildAP, Expr.rebuildA, concat_addTriviaP]
+    congr 1
+    simp only [concat_append, concat_cons, concat_nil, text_tok, text_ws, ihe, ihd, concat_attrP, List.append_assoc,
+      List.nil_append, List.cons_append, List.append_nil]
+  | .lam name bcc g k body before after, na, i, b => by
+    have ihb := concat_rebuildAP body
+    simp only [Expr.rebuildAP, Expr.rebuildA, concat_addTriviaP]
+    congr 1
+    simp only [concat_append, concat_cons, concat_nil, text_tok, text_ws, ihb, List.append_assoc,
+      List.nil_append, List.cons_append, List.append_nil]
+  | .un op expr g bt before after, na, i, b => by
+    have ihe := concat_rebuildAP expr
+    simp only [Expr.rebuildAP, Expr.rebuildA, concat_addTriviaP]
+    congr 1
+    simp only [concat_append, concat_cons, concat_nil, text_tok, text_ws, apply_ite concat, ihe, List.append_assoc,
+      List.nil_append, List.cons_append, List.append_nil]
+  | .bin op left right ogl rgl before after, na, i, b => by
+    have ihl := concat_rebuildAP left
+    have ihr := concat_rebuildAP right
+    simp only [Expr.rebuildAP, Expr.rebuildA, concat_addTriviaP, concat_binCoreP, concat_cons, text_ws, ihl, ihr]
 theorem concat_rebuildAllP : (es : List Expr) → ∀ (i : Nat) (b : Bool),
     (rebuildAllP es i b).map concat = rebuildAll es i b
   | [], i, b => rfl
@@ -261,6 +349,13 @@ theorem concat_previewP : (e : Expr) → ∀ (i : Nat), (e.previewP i).map conca
   | .binding .., i => rfl
   | .paren .., i => rfl
   | .app .., i => rfl
+  | .wth .., i => rfl
+  | .asrt .., i => rfl
+  | .sel .., i => rfl
+  | .selOr .., i => rfl
+  | .lam .., i => rfl
+  | .un .., i => rfl
+  | .bin .., i => rfl
   | .list value ml inner before after, i => by
     have ihs := fun i b => concat_rebuildAllP value i b
     simp only [Expr.previewP, Expr.preview]
